@@ -648,17 +648,19 @@ impl Check for C12Deep {
     }
     fn strategy(&self, t: Tier) -> BoxedStrategy<CaseDeep> {
         let max_d: u8 = t.pick(40, 120);
-        (prop_oneof![3 => 1u8..12, 2 => 12u8..24, 1 => 24u8..max_d], prop_oneof![Just(0u8), Just(2u8), Just(3u8), Just(4u8), Just(6u8)], 0u8..4).prop_map(|(depth, stages, wrap)| CaseDeep { depth, stages, wrap }).boxed()
+        (prop_oneof![3 => 1u8..12, 2 => 12u8..24, 1 => 24u8..max_d], prop_oneof![Just(0u8), Just(2u8), Just(3u8), Just(4u8), Just(6u8)], 0u8..8).prop_map(|(depth, stages, wrap)| CaseDeep { depth, stages, wrap }).boxed()
     }
     fn check(&self, c: &CaseDeep) -> CaseResult {
         let d = c.depth.max(1) as usize;
         let n = c.stages as usize;
         // input: {"tag":"top","sub":[{"tag":"L1","sub":[{"tag":"L2",...}]}]}
+        // (every list holds a decoy sibling in front of the real element: a frame that leaks from one
+        // element to the next shows as a wrong parent)
         let mut input = format!("{{\"tag\":\"L{}\",\"sub\":[]}}", d);
         for i in (1..d).rev() {
-            input = format!("{{\"tag\":\"L{}\",\"sub\":[{}]}}", i, input);
+            input = format!("{{\"tag\":\"L{}\",\"sub\":[{{\"tag\":\"decoy{}\",\"sub\":[]}},{}]}}", i, i, input);
         }
-        input = format!("{{\"tag\":\"top\",\"sub\":[{}]}}", input);
+        input = format!("{{\"tag\":\"top\",\"sub\":[{{\"tag\":\"decoy0\",\"sub\":[]}},{}]}}", input);
         let k_max = d + n + 4;
         let items: Vec<String> = (0..=k_max).map(|k| if k == 0 { "(default .tag \"none\")".to_string() } else { format!("(default {}.tag \"none\")", "^".repeat(k)) }).collect();
         let mut last = format!("(push [] {})", items.join(" "));
@@ -674,8 +676,9 @@ impl Check for C12Deep {
         } else {
             last
         };
-        for _ in 0..d {
-            body = format!("(map .sub {})", body);
+        for level in 0..d {
+            // wrap bit 2: every other level is a flat_map whose body is a one-element list
+            body = if c.wrap & 4 == 4 && level % 2 == 0 { format!("(flat_map .sub (push [] {}))", body) } else { format!("(map .sub {})", body) };
         }
         let args = vec![format!("--select={} = x", body)];
         let o = run(&args, input.as_bytes());
@@ -693,8 +696,8 @@ impl Check for C12Deep {
         };
         for _ in 0..d {
             v = match v {
-                RVal::Arr(mut a) if a.len() == 1 => a.remove(0),
-                other => return CaseResult::Fail(format!("expected {} nested one-element lists, found {} (depth {}, {} stages)", d, trunc(&other.to_json(), 200), d, n)),
+                RVal::Arr(mut a) if a.len() == 2 => a.remove(1),
+                other => return CaseResult::Fail(format!("expected {} nested two-element lists (decoy, real), found {} (depth {}, {} stages)", d, trunc(&other.to_json(), 200), d, n)),
             };
         }
         let RVal::Arr(list) = v else { return CaseResult::Fail("the innermost value is not the list".into()) };
@@ -720,7 +723,7 @@ impl Check for C12Deep {
         if got != exp {
             return CaseResult::Fail(format!("the chain of parents seen at depth {} ({} pipe stages, wrap {}) is {:?}, expected {:?} (consecutive repetitions folded)", d, n, c.wrap, got, exp));
         }
-        CaseResult::Pass(Info::new(d >= 2).class_if(n >= 2, "inside_a_pipe").class_if(c.wrap != 0, "under_a_binding").class_if(d > 16, "deeper_than_16").class_if(d > 32, "deeper_than_32").obs(json!({"depth": d, "stages": n, "chain": got.len()})))
+        CaseResult::Pass(Info::new(d >= 2).class_if(n >= 2, "inside_a_pipe").class_if(c.wrap & 3 != 0, "under_a_binding").class_if(c.wrap & 4 == 4, "flat_map_levels").class_if(d > 16, "deeper_than_16").class_if(d > 32, "deeper_than_32").obs(json!({"depth": d, "stages": n, "chain": got.len()})))
     }
 }
 
@@ -804,7 +807,7 @@ pub fn run_all(ctx: &mut Ctx) {
     C12SetValue.run(ctx);
     ctx.rule.push_str(". (preset_value) --set a=A (or @a=A) next to --set b=E(:a) for seven closed templates E: b must be bound as with a name that is never bound, in both option orders");
     C12PresetValue.run(ctx);
-    ctx.rule.push_str(". (deep_parents) 1..40 (120 thorough) nested map bodies, optionally a 2..6-stage pipe in the innermost one and set/define around the last expression: the values of . ^ ^^ ... must name the pipe's earlier stage values, then every enclosing level up to the top-level input");
+    ctx.rule.push_str(". (deep_parents) 1..40 (120 thorough) nested map (or alternately flat_map) bodies over lists that hold a decoy sibling in front of the real element, optionally a 2..6-stage pipe in the innermost one and set/define around the last expression: the values of . ^ ^^ ... must name the pipe's earlier stage values, then every enclosing level up to the top-level input");
     C12Deep.run(ctx);
 }
 
